@@ -160,7 +160,6 @@ let err_class = function
 
 (* ---------------------------------------------------------------- suite codec *)
 let decode_kfs : (string * (n -> n list -> bool)) list = [
-  "kf_alloc_upfront", kf_alloc_upfront;
   "kf_varint_long", kf_varint_long;
   "kf_varint_eof", kf_varint_eof;
   "kf_varint_noncanonical", kf_varint_noncanonical;
@@ -217,13 +216,11 @@ let run (input : Sexp.t) (impl : Sexp.t) : Verdict.t =
   let kf =
     if oracle then "-"
     else begin
-      let case = match failing_step v bs isteps with
-        | Some c -> Some c
-        | None -> if not (alloc_ok bs ialloc) then Some (v, bs) else None in
-      match case with
-      | None -> "-"
+      match failing_step v bs isteps with
       | Some (cv, cbs) ->
         (try fst (List.find (fun (_, f) -> f cv cbs) decode_kfs) with Not_found -> "-")
+      | None ->
+        if not (alloc_ok bs ialloc) && kf_alloc_upfront v bs then "kf_alloc_upfront" else "-"
     end in
   let outcome = match isteps with
     | StOk _ :: _ -> "ok" | StErr e :: _ -> err_class e | StPanic :: _ -> "panic" | _ -> "none" in
